@@ -90,7 +90,10 @@ def q_emit_note(cfg):
         for k in range(ntr):
             is_k = eq(tr, k) if ntr > 1 else True
             if bool(is_k):
-                seqs.append(rel_sequence([on(0, p, v), wait(dur), off(0, p)]))
+                # built through the absolute view on a foreign channel, both views current when tokenise renumbers it
+                sq = abs_sequence([on(9, p, v, time=0), off(9, p, time=dur)])
+                sq.rel
+                seqs.append(sq)
             else:
                 seqs.append(rel_sequence([wait(dur)]))
         return _emit_check(ctx, tok, seqs, "note")
